@@ -652,6 +652,22 @@ func (e *Env) call(x SCall) SVal {
 	case "emod":
 		argn(2)
 		return SVal{T: EMod(e.elab(x.Args[0]).T, e.elab(x.Args[1]).T), Typ: tInt}
+	case "fsum":
+		// fsum(s, n): the sum of the real values of s[0..n) in the current heap
+		argn(2)
+		sv, nv := e.elab(x.Args[0]), e.elab(x.Args[1])
+		var sl *types.Slice
+		if sv.Typ != nil {
+			sl, _ = sv.Typ.Underlying().(*types.Slice)
+		}
+		if sl == nil {
+			efail("fsum(s, n): s must be a slice")
+		}
+		if b, ok := sl.Elem().Underlying().(*types.Basic); !ok || b.Info()&types.IsFloat == 0 {
+			efail("fsum(s, n): s must be a slice of floats")
+		}
+		row := Select(e.cur.H(e.p, e.p.elemHeap(sl.Elem())), SBase(sv.T))
+		return SVal{T: FSum(row, SOff(sv.T), coerce(nv.T, SInt)), Typ: tMathReal}
 	case "sameslice":
 		argn(2)
 		return SVal{T: Eq(e.elab(x.Args[0]).T, e.elab(x.Args[1]).T), Typ: tBool}
@@ -905,6 +921,44 @@ func (p *Program) opaqueAxioms(ops map[string]bool) []*Term {
 			info.axiom = Forall(bound, Eq(app, Subst(info.body, m)), []*Term{app})
 		}
 		out = append(out, info.axiom)
+	}
+	return out
+}
+
+// fsumUnfold: the defining recursion of the built-in slice sum at its ground
+// applications: fsum(A,o,n) = (n <= 0 ? 0 : fsum(A,o,n-1) + val(A[o+n-1])),
+// repeated `depth` times on the newly introduced applications.
+func fsumUnfold(ts []*Term, depth int) []*Term {
+	var out []*Term
+	done := map[*Term]bool{}
+	seen := map[*Term]bool{}
+	frontier := ts
+	for d := 0; d < depth; d++ {
+		var apps []*Term
+		for _, t := range frontier {
+			collect(t, seen, func(x *Term) {
+				if strings.HasPrefix(x.Op, "fsum.") && x.closed() && !done[x] {
+					done[x] = true
+					apps = append(apps, x)
+				}
+			})
+		}
+		if len(apps) == 0 {
+			break
+		}
+		var next []*Term
+		for _, a := range apps {
+			row, off, n := a.Args[0], a.Args[1], a.Args[2]
+			n1 := Sub(n, IntLit(1))
+			var val *Term = At(row, off, n1)
+			if val.Sort == SXReal {
+				val = XVal(val)
+			}
+			def := Eq(a, Ite(Le(n, IntLit(0)), RealLitStr("0"), Add(FSum(row, off, n1), val)))
+			out = append(out, def)
+			next = append(next, def)
+		}
+		frontier = next
 	}
 	return out
 }
